@@ -73,10 +73,11 @@ type caseA struct {
 }
 
 type entry struct {
-	ID     string
-	Marker bool
-	Body   []byte
-	Meta   string
+	ID      string
+	Marker  bool
+	Body    []byte
+	Meta    string
+	AnyMeta bool // the user metadata of this version is not the usual pair (an upload with odd headers that was accepted): only gen is compared
 }
 
 var (
@@ -187,7 +188,7 @@ func execA(c caseA) (st stats, err error) {
 		if got := r.Header.Get("x-amz-meta-gen"); got != e.Meta {
 			return fmt.Errorf("%s: version %s of %q carries metadata gen=%q, it was written with %q", where, e.ID, keyNames[k%len(keyNames)], got, e.Meta)
 		}
-		if got, want := metaSet(r.Header), wantSet(e.Meta); got != want {
+		if got, want := metaSet(r.Header), wantSet(e.Meta); got != want && !e.AnyMeta {
 			return fmt.Errorf("%s: version %s of %q carries the user metadata %s, it was written with %s", where, e.ID, keyNames[k%len(keyNames)], got, want)
 		}
 		// the same version through HEAD: its own length and metadata
@@ -195,7 +196,7 @@ func execA(c caseA) (st stats, err error) {
 		if err != nil {
 			return fmt.Errorf("SETUP: transport: %v", err)
 		}
-		if h.Status != 200 || h.Header.Get("Content-Length") != fmt.Sprint(len(e.Body)) || h.Header.Get("x-amz-meta-gen") != e.Meta || metaSet(h.Header) != wantSet(e.Meta) {
+		if h.Status != 200 || h.Header.Get("Content-Length") != fmt.Sprint(len(e.Body)) || h.Header.Get("x-amz-meta-gen") != e.Meta || (metaSet(h.Header) != wantSet(e.Meta) && !e.AnyMeta) {
 			return fmt.Errorf("%s: HEAD of version %s of %q answers %d with Content-Length %q and gen=%q, GET returns its %d bytes and gen=%q", where, e.ID, keyNames[k%len(keyNames)], h.Status, h.Header.Get("Content-Length"), h.Header.Get("x-amz-meta-gen"), len(e.Body), e.Meta)
 		}
 		return nil
@@ -293,7 +294,7 @@ func execA(c caseA) (st stats, err error) {
 			if !r.OK() {
 				return nil
 			}
-			return push(k, entry{ID: r.Header.Get("x-amz-version-id"), Body: src[0].Body, Meta: src[0].Meta}, where)
+			return push(k, entry{ID: r.Header.Get("x-amz-version-id"), Body: src[0].Body, Meta: src[0].Meta, AnyMeta: src[0].AnyMeta}, where)
 		case "copyver":
 			// a copy that names the version to copy: retrievable by id means copyable by id too
 			si := o.Src % len(keyNames)
@@ -322,15 +323,37 @@ func execA(c caseA) (st stats, err error) {
 			if !r.OK() || strings.Contains(string(r.Body), "<Error>") {
 				return fmt.Errorf("%s: CopyObject from version %s of %q (which GET returns) answers %v", where, e.ID, keyNames[si], r)
 			}
-			return push(k, entry{ID: r.Header.Get("x-amz-version-id"), Body: e.Body, Meta: e.Meta}, where)
+			return push(k, entry{ID: r.Header.Get("x-amz-version-id"), Body: e.Body, Meta: e.Meta, AnyMeta: e.AnyMeta}, where)
 		case "badput":
 			// an upload that is refused (its Content-MD5 is not the body's) leaves the key's versions as they were
-			r, err := cl.Call("PUT", path(k), nil, append([]s3c.KV{{K: "Content-MD5", V: "1B2M2Y8AsgTpgAmY7PhCfg=="}}, metaHdrs("bad")...), body(o))
+			hdr := append([]s3c.KV{{K: "Content-MD5", V: "1B2M2Y8AsgTpgAmY7PhCfg=="}}, metaHdrs("bad")...)
+			sure := true // the refusal is certain (else: a request a gateway may accept or refuse, at whatever stage)
+			switch o.Seed % 6 {
+			case 1:
+				var tags []string
+				for i := 0; i < 11; i++ {
+					tags = append(tags, fmt.Sprintf("t%d=v", i))
+				}
+				hdr, sure = []s3c.KV{{K: "x-amz-meta-gen", V: "bad"}, {K: "x-amz-meta-x1", V: "of-bad"}, {K: "x-amz-tagging", V: strings.Join(tags, "&")}}, false
+			case 2:
+				hdr, sure = []s3c.KV{{K: "x-amz-meta-gen", V: "bad"}, {K: "x-amz-meta-x1", V: "of-bad"}, {K: "x-amz-tagging", V: "a=b&&=c&d"}}, false
+			case 3:
+				hdr, sure = append(metaHdrs("bad"), s3c.KV{K: "x-amz-object-lock-mode", V: "GOVERNANCE"}, s3c.KV{K: "x-amz-object-lock-retain-until-date", V: "2099-01-01T00:00:00Z"}), false
+			case 4:
+				hdr, sure = append(metaHdrs("bad"), s3c.KV{K: "x-amz-checksum-crc32", V: "AAAAAA=="}), len(body(o)) > 0
+			case 5:
+				hdr, sure = append(metaHdrs("bad"), s3c.KV{K: "x-amz-meta-big", V: strings.Repeat("m", 3000)}), false
+			}
+			r, err := cl.Call("PUT", path(k), nil, hdr, body(o))
 			if err != nil {
 				return fmt.Errorf("SETUP: transport: %v", err)
 			}
+			if r.OK() && !sure {
+				// accepted after all: a write like any other (its metadata set is not the usual one: not compared)
+				return push(k, entry{ID: r.Header.Get("x-amz-version-id"), Body: body(o), Meta: "bad", AnyMeta: true}, where)
+			}
 			if r.OK() {
-				if len(body(o)) == 0 {
+				if len(body(o)) == 0 && o.Seed%6 == 0 {
 					// the digest given is the one of the empty body: a valid upload
 					return push(k, entry{ID: r.Header.Get("x-amz-version-id"), Body: body(o), Meta: "bad"}, where)
 				}
